@@ -16,8 +16,13 @@ Events (the alphabet):
 """
 from __future__ import annotations
 
+import atexit
 import io
+import os
+import shutil
+import tempfile
 import types
+import weakref
 from typing import Any
 
 import cascade.shm.api as api
@@ -48,6 +53,37 @@ def _save_originals() -> None:
     if not _ORIG:
         _ORIG["SharedMemory"] = dataset.SharedMemory
         _ORIG["multiprocessing"] = disk.multiprocessing
+
+
+_BASE: list = [None]
+
+
+def files_base() -> str:
+    """per-run base directory for page-out files; create it in the parent BEFORE forking workers"""
+    if _BASE[0] is None:
+        _BASE[0] = tempfile.mkdtemp(prefix="vf_shmfiles_")
+        atexit.register(shutil.rmtree, _BASE[0], True)
+    return _BASE[0]
+
+
+class _LazyDir:
+    """stands in for tempfile.TemporaryDirectory: `.name` creates the world's directory on first use"""
+
+    def __init__(self, world):
+        self.world = weakref.ref(world)
+
+    @property
+    def name(self) -> str:
+        w = self.world()
+        if w._dir is None:
+            w._dir = tempfile.mkdtemp(dir=files_base())
+            weakref.finalize(w, shutil.rmtree, w._dir, True)
+        return w._dir
+
+    def cleanup(self):
+        w = self.world()
+        if w is not None and w._dir:
+            shutil.rmtree(w._dir, True)
 
 
 class FaultInjected(Exception):
@@ -145,35 +181,12 @@ class World:
         dataset.uuid = types.SimpleNamespace(uuid4=uuid4)
         client.time = types.SimpleNamespace(sleep=lambda s: None)
 
-        # in-memory files for the real _page_out/_page_in bodies
-        class _F(io.BytesIO):
-            def __init__(self, path, mode):
-                self.path, self.mode = path, mode
-                if "r" in mode:
-                    if path not in w.files:
-                        raise FileNotFoundError(path)
-                    super().__init__(w.files[path])
-                else:
-                    super().__init__()
-
-            def __exit__(self, *a):
-                if "w" in self.mode:
-                    w.files[self.path] = self.getvalue()
-                return super().__exit__(*a)
-
+        # the real _page_out/_page_in bodies write and read REAL files, in a directory created lazily per world under a
+        # per-run base directory (removed when the world is collected and, wholesale, when the run ends)
+        if hasattr(disk, "open"):
+            del disk.open
+        self._dir: str | None = None
         self.fail_file_open = False
-
-        def fake_open(path, mode="r"):
-            if w.fail_file_open:
-                w.fail_file_open = False
-                raise FaultInjected("file")
-            return _F(path, mode)
-
-        if real:
-            if hasattr(disk, "open"):
-                del disk.open
-        else:
-            disk.open = fake_open
         self.pending: list[tuple[str, str, tuple]] = []  # (kind, shmid, args)
 
         real_disk = disk.Disk
@@ -183,7 +196,7 @@ class World:
                 if real:
                     real_disk.__init__(self)  # real temporary directory and real thread pools
                     return
-                self.root = types.SimpleNamespace(name="/vdisk", cleanup=lambda: None)
+                self.root = _LazyDir(w)
                 self.readers = self.writers = types.SimpleNamespace(shutdown=lambda **k: None)
 
             def page_out(self, shmid, callback):
@@ -498,7 +511,10 @@ class World:
             if variant == "fail-early":
                 self.ns.fail_create = True
             elif variant == "fail-late":
-                self.fail_file_open = True
+                # the file cannot be opened: the segment has been created by then
+                fpath = os.path.join(vd.root.name, shmid)
+                if os.path.exists(fpath):
+                    os.rename(fpath, fpath + ".lost")
             d._page_in(vd, shmid, args[1], spy)
         self.ns.fail_open = self.ns.fail_unlink = self.ns.fail_create = False
         self.fail_file_open = False
@@ -567,7 +583,7 @@ class World:
             ds, m.free_space, m.pageout_all.locked(), m.pageout_count,
             tuple((jk[0], jk[1], jk[2] == self.incarnation.get(jk[1], 0)) for jk in self.job_key),
             tuple(sorted((self.shmid2key.get(n, n), bytes(b) == self.pattern(self.shmid2key[n]) if n in self.shmid2key else None) for n, b in self.ns.segments.items())),
-            tuple(sorted(self.files)),
+            tuple(sorted(f for f in os.listdir(self._dir) if not f.endswith(".lost"))) if self._dir else (),
             tuple(sorted((k, self.fresh(b)) for k, b in self.writers.items())),
             tuple(sorted((k, tuple(sorted(self.fresh(b) for b in v))) for k, v in self.readers.items() if v)),
             self.aged_at is not None,
